@@ -23,7 +23,9 @@ func init() {
 		c09DecodedPointers(c)
 		c09EventSignatures(c)
 		answerOrPark(c, "C09.5", false)
+		c09OnRequestImplementations(c, "C09.5b")
 		c09ReadersTerminate(c)
+		lockBalance(c, "C09.2b", "engine", "transports", "types")
 		c10BoundedBody(c, "C09.7")
 		c10LimitBeforeRead(c, "C09.7b")
 		c19Pairing(c) // C09.8: no per-packet resource growth — a timer holder is overwritten only after the previous timer was cleared, every timer is cancelled by its owner's teardown
@@ -595,4 +597,71 @@ func c09ReadersTerminate(c *core.Ctx) {
 		c.Check(R, "types.NewHttpContext/watcher-has-both-exits", nc.Pos(), ok, "the per-request watcher ends when the response was written, or when the request context ends — and then calls Flush so that the blocked handler is released")
 	}
 	_ = sort.Strings
+}
+
+// c09OnRequestImplementations — the delegation `Transport().OnRequest(ctx)` of HandleRequest answers or parks
+// only for transports that implement it; the others must never receive a plain request.
+func c09OnRequestImplementations(c *core.Ctx, R string) {
+	c.Rule(R, "HandleRequest's delegation to the session transport's OnRequest is an answer only where OnRequest is implemented: every concrete transport either overrides OnRequest (polling, jsonp via polling: answers or parks, C09.5) or reports HandlesUpgrades() == true (websocket, webtransport: base OnRequest is a no-op); and Verify refuses (BAD_REQUEST) every non-upgrade request whose session transport HandlesUpgrades(), so the no-op is never the one to receive a request — otherwise the handler waits forever (a POST whose body is unread is not even released when the client goes away)")
+	// (1) transport type table
+	base := c.Fn(R, "transports.(*transport).OnRequest")
+	if base != nil {
+		c.Check(R, "transports.(*transport).OnRequest/base-is-noop", base.Pos(), len(base.Calls()) == 0, "the base implementation does nothing (so it must never be reached with a request)")
+	}
+	for _, t := range []struct {
+		typ      string
+		answers  bool
+		upgrades bool
+	}{{"polling", true, false}, {"websocket", false, true}, {"webTransport", false, true}} {
+		own := c.P.Func("transports.(*" + t.typ + ").OnRequest")
+		hu := c.P.Func("transports.(*" + t.typ + ").HandlesUpgrades")
+		up := false
+		if hu != nil {
+			for _, r := range returnsIn(hu) {
+				if v, isC := core.ConstBool(hu.Info(), r.Stmt.Results[0]); isC && v {
+					up = true
+				}
+			}
+		}
+		ok := (own != nil) == t.answers && up == t.upgrades && ((own != nil) != up)
+		pos := token.NoPos
+		if own != nil {
+			pos = own.Pos()
+		} else if hu != nil {
+			pos = hu.Pos()
+		}
+		c.Check(R, keyf("transports.(*%s)/answers-requests-xor-handles-upgrades", t.typ), pos, ok, keyf("overrides OnRequest=%v, HandlesUpgrades()=%v", own != nil, up))
+	}
+	// (2) Verify's refusal
+	v := c.Fn(R, bsVerify)
+	if v == nil {
+		return
+	}
+	g := v.Graph()
+	ok := false
+	for _, rr := range rejectReturns(v) {
+		if rr.code != "BAD_REQUEST" || rr.br == nil {
+			continue
+		}
+		notUp, handles := false, false
+		for _, f := range g.Facts() {
+			if f.Br.B != rr.br.Br.B || f.Edge != rr.br.Edge {
+				continue
+			}
+			if isLocal(v.Info(), f.Br.Cond, paramName(v, 1)) && !f.Val {
+				notUp = true
+			}
+			if ce, isC := ast.Unparen(f.Br.Cond).(*ast.CallExpr); isC && calleeNameOf(ce) == "HandlesUpgrades" && f.Val {
+				// on the looked-up session's transport
+				ch := calleeChain(v, ce)
+				if len(ch) >= 2 && strings.HasSuffix(ch[len(ch)-2], ".Transport") {
+					handles = true
+				}
+			}
+		}
+		if notUp && handles && g.GuardedBy(rr.ret.Loc, okOfLoad()) {
+			ok = true
+		}
+	}
+	c.Check(R, bsVerify+"/plain-request-on-upgrade-only-session→BAD_REQUEST", v.Pos(), ok, "!upgrade ∧ session.Transport().HandlesUpgrades() is refused before HandleRequest can delegate it")
 }
